@@ -2,6 +2,7 @@ package props
 
 import (
 	"go/token"
+	"go/types"
 	"sort"
 	"strings"
 
@@ -221,10 +222,149 @@ func layerKeySets(c *report.Ctx) map[string]map[string]bool {
 	return keys
 }
 
-// unionArgs returns the layer names passed to the mapUnion call, in order.
-func unionArgs(call ssa.CallInstruction) []string {
+// unionSite is one place where maps are united, last one winning, into a fresh map: a call of mapUnion (whose
+// last-wins shape clause 1 decides), or the same thing written out - a map made empty on the spot and filled by
+// nothing but a sequence of complete, unconditional copy loops `for k, v := range layer { m[k] = v }`.
+type unionSite struct {
+	result ssa.Value   // the united map
+	args   []ssa.Value // the maps united, in the order they are copied
+}
+
+func unionSites(f *ssa.Function) []unionSite {
+	var out []unionSite
+	for _, call := range an.CallsTo(f, "L/rapidcore/env.mapUnion") {
+		if v := call.Value(); v != nil {
+			out = append(out, unionSite{v, variadicValues(call.Common().Args[0])})
+		}
+	}
+	an.AllInstrs(f, func(in ssa.Instruction) {
+		if m, ok := in.(*ssa.MakeMap); ok {
+			if args, k := writtenOutUnion(m); k {
+				out = append(out, unionSite{m, args})
+			}
+		}
+	})
+	return out
+}
+
+// writtenOutUnion: m, a map made empty in this function, is written by copy loops alone - each one ranges over a
+// map and stores every pair it yields under its own key, unconditionally (the store stands in the loop's one body
+// block, which goes straight back to the loop test; the loop is left only when the range is exhausted) - the loops
+// stand one after the other (each begins after the previous one has finished), and every other use of m (returning
+// it, handing it on) comes after the last loop has finished and cannot be reached without running every loop. Then, at every such use, m is the union of the ranged
+// maps in loop order, a later one's value replacing an earlier one's: what mapUnion(args...) returns.
+func writtenOutUnion(m *ssa.MakeMap) ([]ssa.Value, bool) {
+	type loop struct {
+		rg   *ssa.Range
+		done *ssa.BasicBlock
+	}
+	var loops []loop
+	var others []ssa.Instruction
+	if m.Referrers() == nil {
+		return nil, false
+	}
+	for _, r := range *m.Referrers() {
+		mu, isMU := r.(*ssa.MapUpdate)
+		if !isMU {
+			switch x := r.(type) {
+			case *ssa.Return:
+				others = append(others, r)
+			case *ssa.Call:
+				if an.Callee(x) == "builtin.delete" {
+					return nil, false
+				}
+				others = append(others, r)
+			case *ssa.DebugRef:
+			default:
+				return nil, false
+			}
+			continue
+		}
+		kx, k1 := mu.Key.(*ssa.Extract)
+		vx, k2 := mu.Value.(*ssa.Extract)
+		if mu.Map != ssa.Value(m) || !k1 || !k2 || kx.Tuple != vx.Tuple || kx.Index != 1 || vx.Index != 2 {
+			return nil, false
+		}
+		nx, isNext := kx.Tuple.(*ssa.Next)
+		if !isNext || nx.IsString {
+			return nil, false
+		}
+		rg, isRange := nx.Iter.(*ssa.Range)
+		if !isRange || rg.Referrers() == nil || len(*rg.Referrers()) != 1 {
+			return nil, false
+		}
+		if _, isMap := rg.X.Type().Underlying().(*types.Map); !isMap {
+			return nil, false
+		}
+		h, body := nx.Block(), mu.Block()
+		if len(h.Succs) != 2 || len(h.Preds) != 2 || h.Succs[0] != body || h.Succs[1] == body || h == body {
+			return nil, false
+		}
+		iff, isIf := h.Instrs[len(h.Instrs)-1].(*ssa.If)
+		if !isIf {
+			return nil, false
+		}
+		okx, isEx := iff.Cond.(*ssa.Extract)
+		if !isEx || okx.Tuple != ssa.Value(nx) || okx.Index != 0 {
+			return nil, false
+		}
+		if len(body.Preds) != 1 || len(body.Succs) != 1 || body.Succs[0] != h {
+			return nil, false
+		}
+		// the loop is entered from the block that starts the iteration, and from nowhere else
+		pre := h.Preds[0]
+		if pre == body {
+			pre = h.Preds[1]
+		}
+		if pre == body || pre != rg.Block() || len(pre.Succs) != 1 {
+			return nil, false
+		}
+		// one store per loop
+		for _, l := range loops {
+			if l.rg == rg {
+				return nil, false
+			}
+		}
+		loops = append(loops, loop{rg, h.Succs[1]})
+	}
+	if len(loops) == 0 {
+		return nil, false
+	}
+	// one after the other: a is before b when b starts only after a was left
+	before := func(a, b loop) bool { return a.done.Dominates(b.rg.Block()) }
+	sort.SliceStable(loops, func(i, j int) bool { return before(loops[i], loops[j]) })
+	for i := 0; i+1 < len(loops); i++ {
+		if !before(loops[i], loops[i+1]) || before(loops[i+1], loops[i]) {
+			return nil, false
+		}
+	}
+	// every use of the finished map lies behind every loop: no way to it goes round a loop (each loop's first block
+	// leads into the loop only, and the loop is left only through its exhausted test) or leaves before the last one
+	last := loops[len(loops)-1]
+	for _, o := range others {
+		if !last.done.Dominates(o.Block()) {
+			return nil, false
+		}
+		for _, l := range loops {
+			if !l.rg.Block().Dominates(o.Block()) {
+				return nil, false
+			}
+		}
+	}
+	if len(others) == 0 {
+		return nil, false
+	}
+	var args []ssa.Value
+	for _, l := range loops {
+		args = append(args, l.rg.X)
+	}
+	return args, true
+}
+
+// unionArgs returns the layer names united at the site, in order.
+func unionArgs(site unionSite) []string {
 	var out []string
-	for _, v := range variadicValues(call.Common().Args[0]) {
+	for _, v := range site.args {
 		if fr, ok := an.AsField(an.Strip(v, false)); ok && fr.Struct == envT {
 			out = append(out, fr.Field)
 		} else {
@@ -241,7 +381,7 @@ func checkPrecedence(c *report.Ctx, keys map[string]map[string]bool) {
 		rank[l] = i
 	}
 	if f := fn(c, "L/rapidcore/env", "(*Environment).RuntimeExecEnv"); f != nil {
-		calls := an.CallsTo(f, "L/rapidcore/env.mapUnion")
+		calls := unionSites(f)
 		ok := len(calls) == 1
 		var args []string
 		if ok {
@@ -283,12 +423,12 @@ func checkPrecedence(c *report.Ctx, keys map[string]map[string]bool) {
 				}
 			}
 			ex := an.Exits(f)
-			ok = ok && len(ex) == 1 && ex[0].Vals[0] == ssa.Value(calls[0].Value())
+			ok = ok && len(ex) == 1 && ex[0].Vals[0] == calls[0].result
 		}
 		c.Check("R-ORDER", an.FuncName(f)+"/precedence", "the runtime's environment is one union with the customer map first and every reserved layer after it (reserved values win), reserved layers with common names in the documented order", ok, fpos(f), len(args), "union arguments: %v", args)
 	}
 	if f := fn(c, "L/rapidcore/env", "(*Environment).AgentExecEnv"); f != nil {
-		calls := an.CallsTo(f, "L/rapidcore/env.mapUnion")
+		calls := unionSites(f)
 		excl := an.CallsTo(f, "L/rapidcore/env.mapExclude")
 		ok := len(calls) == 1 && len(excl) == 1
 		var args []string
@@ -306,7 +446,7 @@ func checkPrecedence(c *report.Ctx, keys map[string]map[string]bool) {
 			}
 			ok = ok && has["credentials"] && has["platform"]
 			// result = mapExclude(union, predicate)
-			ok = ok && excl[0].Common().Args[0] == ssa.Value(calls[0].Value())
+			ok = ok && excl[0].Common().Args[0] == calls[0].result
 			ex := an.Exits(f)
 			ok = ok && len(ex) == 1 && ex[0].Vals[0] == ssa.Value(excl[0].Value())
 		}
@@ -504,13 +644,16 @@ func checkCustomerTaint(c *report.Ctx) {
 	for _, f := range envInitStoreFns(c) {
 		ok := false
 		nuse := 0
-		for _, p := range f.Params {
+		// (what was handed in: a parameter, or a field of a record passed by value - an.ParamPieces)
+		for _, p := range an.ParamPieces(f) {
 			merged := false
 			for _, call := range an.CallsTo(f, "L/rapidcore/env.mapUnion") {
 				for _, v := range variadicValues(call.Common().Args[0]) {
-					if v == ssa.Value(p) {
-						if st := storedToField(call, envT, "Customer"); st {
-							merged = true
+					for _, rd := range p.Reads {
+						if v == rd {
+							if st := storedToField(call, envT, "Customer"); st {
+								merged = true
+							}
 						}
 					}
 				}
@@ -519,7 +662,7 @@ func checkCustomerTaint(c *report.Ctx) {
 				continue
 			}
 			ok = true
-			nuse = len(*p.Referrers())
+			nuse = p.Uses()
 		}
 		c.Check("R-WIRE", an.FuncName(f)+"/customer-map-only-merged", "the customer-supplied map is used only as the argument of the customer merge", ok && nuse == 1, fpos(f), nuse, "uses of customerEnv: %d; merged into the customer layer: %v", nuse, ok)
 	}
@@ -546,7 +689,8 @@ func unionArgsMixed(call ssa.CallInstruction) []string {
 	for _, v := range variadicValues(call.Common().Args[0]) {
 		if fr, ok := an.AsField(an.Strip(v, false)); ok && fr.Struct == envT {
 			out = append(out, fr.Field)
-		} else if _, ok := v.(*ssa.Parameter); ok {
+		} else if _, _, ok := an.ParamRead(v); ok {
+			// a parameter, or a field of a record passed by value
 			out = append(out, "param")
 		} else {
 			out = append(out, "?")
